@@ -23,6 +23,7 @@ type Ctx struct {
 	err   *core.ErrEngine
 
 	evReach map[*ssa.Function]bool
+	gScope  map[*ssa.Function]bool
 }
 
 // Registry maps property ids to their rule sets.
@@ -391,4 +392,86 @@ func writerMethod(ci ssa.CallInstruction) string {
 		return f.Name()
 	}
 	return ""
+}
+
+// pathOf describes a value as a chain of field loads from a root value: root, ".statement.columns".
+// Index expressions contribute "[]" (with the index value returned separately by the caller when needed).
+func pathOf(v ssa.Value) (ssa.Value, string) {
+	path := ""
+	for depth := 0; depth < 12; depth++ {
+		v = core.Strip(v)
+		switch x := v.(type) {
+		case *ssa.UnOp:
+			if x.Op != token.MUL {
+				return v, path
+			}
+			switch a := x.X.(type) {
+			case *ssa.FieldAddr:
+				fr, _ := core.FieldOfAddr(a)
+				path = "." + fr.Name + path
+				v = a.X
+				continue
+			case *ssa.IndexAddr:
+				path = "[]" + path
+				v = a.X
+				continue
+			}
+			return v, path
+		case *ssa.Field:
+			fr, _ := core.FieldOfValue(x)
+			path = "." + fr.Name + path
+			v = x.X
+			continue
+		case *ssa.MakeInterface:
+			v = x.X
+			continue
+		}
+		return v, path
+	}
+	return v, path
+}
+
+// connectionScope returns the functions of S reachable (CHA call graph) from the per-connection
+// entry point (*Server).serve, plus the handler-visible helpers.
+func (c *Ctx) connectionScope() map[*ssa.Function]bool {
+	if c.gScope != nil {
+		return c.gScope
+	}
+	out := map[*ssa.Function]bool{}
+	cg := c.P.CHA()
+	var walk func(fn *ssa.Function)
+	walk = func(fn *ssa.Function) {
+		if fn == nil || out[fn] || !c.P.InScope(fn) {
+			return
+		}
+		out[fn] = true
+		n := cg.Nodes[fn]
+		if n == nil {
+			return
+		}
+		for _, e := range n.Out {
+			walk(e.Callee.Func)
+		}
+	}
+	walk(c.P.Method("wire", "Server", "serve"))
+	// documented helpers a handler calls on client-controlled data
+	for _, fn := range c.P.ScopeFuncs() {
+		if fn.Parent() != nil || !c.P.InPkg(fn, "wire") {
+			continue
+		}
+		switch fn.Name() {
+		case "ParseParameters", "NewBinaryColumnReader", "NewScanner", "NewCopyReader", "ErrorCode", "TypeMap", "ClientParameters", "ServerParameters", "RemoteAddress", "AuthenticatedUsername", "IsSuperUser":
+			walk(fn)
+		}
+		if fn.Signature.Recv() != nil {
+			if n := core.NamedOf(fn.Signature.Recv().Type()); n != nil {
+				switch n.Obj().Name() {
+				case "dataWriter", "CopyReader", "BinaryCopyReader", "Parameter", "Columns", "Column":
+					walk(fn)
+				}
+			}
+		}
+	}
+	c.gScope = out
+	return out
 }
